@@ -25,7 +25,10 @@ Monitors (all at public boundaries of the real code):
    models, interleaved with stand-alone evaluations, change_init_values, fix_betas,
    nest correlation; every live model is judged against the by-name reference and
    the hand-over monitor after every step; a stand-alone evaluation must give the
-   evaluated expression back the id manager it carried.
+   evaluated expression back the id manager it carried;
+ * saved-iteration histories: successive specifications under one model name in one
+   private working directory (save_iterations on): fixed parameters keep exactly the
+   value they were given whatever the file written by the previous specification holds.
 """
 from __future__ import annotations
 
@@ -55,7 +58,13 @@ RULE = (
     'differently, interleaved with stand-alone get_value_c(prepare_ids=True) (with/without betas=), change_init_values, '
     'fix_betas and NestsForNestedLogit.correlation() on the shared objects; after every step live models are judged '
     '(simulate / calculate_likelihood vs the by-name reference + hand-over monitor); a history is non-trivial when it '
-    'built >= 2 models and simulated at least one of them; distinct = hash of (names, pool, steps)'
+    'built >= 2 models and simulated at least one of them; distinct = hash of (names, pool, steps); third family = 2-4 '
+    'successive specifications estimated under ONE model name in ONE private working directory with save_iterations on '
+    '(default Parameters): between them parameters go free->fixed at another value, fixed->free, are renamed (some/all, '
+    'possibly onto a name another parameter had), added, removed, so the saved-iteration file names parameters that are '
+    'now fixed / absent and lacks free ones; judged: fixed parameters keep exactly the given value (Beta objects, '
+    'fixed_betas_values, every engine call), reported likelihood = reference at the reported estimates by name, '
+    'stationarity per name; the starting point is not judged (C15); distinct = hash of the specification sequence'
 )
 ASSUMPTIONS = [
     'reference semantics = biomon/oracle/evalast.py (numpy, complex-step derivatives), guarded at every run by a closed-form '
@@ -69,13 +78,14 @@ ASSUMPTIONS = [
     'Monte-Carlo and panel specifications are not part of this workload (their parameters go through the same '
     'IdManager numbering; draws are covered by C10/C11)',
 ]
-MIN_DISTINCT = {'quick': 250, 'thorough': 2500}
+MIN_DISTINCT = {'quick': 300, 'thorough': 3000}
 CASE_TIMEOUT = 600  # generous: a case needs 1-3 s of CPU; the watchdog only guards against hangs on a loaded machine
 SHARD_TIMEOUT = {'quick': 1800, 'thorough': 14400}
 
 N_MODELS = {'quick': 360, 'thorough': 3000}
 EST_EVERY = 3  # one case out of EST_EVERY estimates O, S and R
 N_HISTORIES = {'quick': 240, 'thorough': 2400}
+N_ITERFILE = {'quick': 120, 'thorough': 1200}
 
 DUP_KINDS = ['free-fixed', 'free-var', 'fixed-var', 'free-unusedcol', 'free-draws', 'fixed-draws', 'free-rv',
              'draws-var', 'rv-var', 'rv-draws', 'free-fixed-across-formulas', 'free-var-across-formulas']
@@ -96,6 +106,11 @@ def cases(seed, tier):
         out.append({'mode': 'directed-fixed-update', 'variant': v, 'seed': seed})
     for i in range(N_HISTORIES[tier]):
         out.append({'mode': 'history', 'seed': seed, 'i': i, 'directed': None})
+    for i in range(N_ITERFILE[tier]):
+        out.append({'mode': 'iterfile', 'seed': seed, 'i': i, 'directed': None})
+    for shape in ('free-to-fixed', 'free-to-fixed-then-back'):
+        for v in range(3):
+            out.append({'mode': 'iterfile', 'seed': 0, 'i': 9000 + v, 'directed': shape})
     for shape in ('c03c-shape', 'nest-shape', 'older-model-shape'):
         for v in range(3):
             out.append({'mode': 'history', 'seed': 0, 'i': 9000 + v, 'directed': shape})
@@ -1995,10 +2010,197 @@ def _run_history(case):
     return rec.out()
 
 
+# ---------------------------------------------------------------------------
+# successive specifications under one model name, saved-iteration file read by name
+
+
+def _run_iterfile(case):
+    import shutil
+    import tempfile
+    from ..gen import c03_iterfile as gi, c03_models as gm, build
+    from ..oracle import c03_ref as ref, signature
+    from ..monitors import engine_proxy as ep
+    from biogeme.biogeme import BIOGEME
+    from biogeme.parameters import Parameters
+
+    rec = Rec(case)
+    specs = gi.plan(case['seed'], case['i'], case.get('directed'))
+    if len(specs) < 2:
+        rec.c('iterfile_histories_too_short')
+        return rec.out()
+    old_cwd = os.getcwd()
+    tmp = tempfile.mkdtemp(prefix='c03iter_', dir=os.environ.get('BIOMON_WORKDIR') or None)
+    os.chdir(tmp)
+    history = []
+    try:
+        file_names = None  # names found in the file before the estimation of the current specification
+        for k, (model, desc) in enumerate(specs):
+            history.append(desc)
+            ast = gm.loglike_ast(model)
+            used = gm.betas_in(ast)
+            free = sorted(n for n in used if model['betas'][n][1] == 0)
+            fixed = sorted(n for n in used if model['betas'][n][1] != 0)
+            given = {n: model['betas'][n][0] for n in used}
+
+            def V(mech, msg, **kw):
+                w = {'history': history, 'specification_index': k, 'model': model, 'names_in_saved_file': file_names}
+                w.update(kw)
+                rec.violation('C03/iterfile-' + mech, f'[specification {k}: {desc.get("op")}] {msg}', w)
+
+            p = Parameters()  # save_iterations is on by default: that is the point
+            p.set_value('generate_html', False, 'Output')
+            p.set_value('generate_pickle', False, 'Output')
+            p.set_value('number_of_threads', 1, 'MultiThreading')
+            iter_file = '__c03model.iter'
+            file_before = None
+            if os.path.exists(iter_file):
+                with open(iter_file) as f:
+                    file_before = dict(line.rstrip('\n').rsplit(' = ', 1) for line in f if ' = ' in line)
+                file_names = sorted(file_before)
+            try:
+                e, _ = build.build(gm.spec_for_build(model, ast, one_beta_object=bool(k % 2)))
+                bg = BIOGEME(build.database({'data': model['data']}), e, parameters=p)
+                bg.modelName = 'c03model'
+                if not bg.save_iterations:
+                    rec.inconc('save_iterations is not on by default')
+                objs = _all_betas([e])
+                ep.reset()
+                res = bg.estimate()
+            except BaseException as ex_:
+                V(f'estimate-raises-{type(ex_).__name__}', str(ex_))
+                break
+            rec.c('iterfile_estimations')
+            if file_before is not None:
+                rec.c('iterfile_estimations_with_a_saved_file')
+                if any(n in file_before for n in fixed):
+                    rec.c('iterfile_file_names_a_parameter_that_is_now_fixed')
+                if any(n not in used for n in file_before):
+                    rec.c('iterfile_file_names_a_parameter_the_specification_does_not_contain')
+                if any(n not in file_before for n in free):
+                    rec.c('iterfile_free_parameter_absent_from_the_file')
+            # (a) fixed parameters keep exactly the value they were given: objects, vector, every engine call
+            rec.ev()
+            rec.c('iterfile_fixed_parameters_checked', len(fixed))
+            bad = False
+            for b in objs:
+                if b.status != 0 and b.name in given and float(b.initValue) != float(given[b.name]):
+                    V('fixed-parameter-does-not-keep-the-value-it-was-given',
+                      f'Beta {b.name!r} (status {b.status}) given {given[b.name]}, carries {b.initValue} after estimate(); '
+                      f'the saved file held {None if file_before is None else file_before.get(b.name)}', name=b.name)
+                    bad = True
+                    break
+                if (b.status != 0) != (model['betas'][b.name][1] != 0):
+                    V('status-changed-by-estimation', f'{b.name!r}: {b.status}')
+            fv = [float(v) for v in bg.id_manager.fixed_betas_values]
+            if list(bg.id_manager.fixed_betas.names) != fixed:
+                V('fixed-names', f'{bg.id_manager.fixed_betas.names} vs {fixed}')
+            elif fv != [float(given[n]) for n in fixed] and not bad:
+                V('fixed-values-handed-to-the-engine-differ-from-the-given-ones',
+                  f'id_manager.fixed_betas_values={dict(zip(fixed, fv))} given {dict((n, given[n]) for n in fixed)}')
+                bad = True
+            ncalls = 0
+            for ent in ep.LOG:
+                if ent.get('kind') == 'biogeme' and ent.get('op') in ('calculateLikelihood', 'calculateLikelihoodAndDerivatives'):
+                    ncalls += 1
+                    vec = [float(v) for v in list(ent['args'][1])]
+                    if vec != [float(given[n]) for n in fixed] and not bad:
+                        V('engine-call-received-other-fixed-values', f'{ent["op"]}: fixed vector {vec}, given {[given[n] for n in fixed]}')
+                        bad = True
+                        break
+            rec.ev(ncalls)
+            rec.c('iterfile_engine_calls_checked', ncalls)
+            # serialised formula: every fixed Beta leaf designates its own given value
+            se = None
+            for ent in ep.LOG:
+                if ent.get('kind') == 'biogeme' and ent.get('op') == 'setExpressions':
+                    se = ent
+            sig = se['args'][0] if se is not None else bg.loglikeSignatures
+            try:
+                _, _, info = signature.decode(sig, [0.0] * len(free), fv, list(model['data']))
+                for lf in info['leaves']['beta']:
+                    if lf['status'] != 0 and lf['name'] in given:
+                        rec.ev()
+                        if not (0 <= lf['id'] < len(fv)) or float(fv[lf['id']]) != float(given[lf['name']]):
+                            if not bad:
+                                V('fixed-beta-leaf-designates-another-value', f'{lf}')
+                                bad = True
+                            break
+            except signature.SignatureError as ex_:
+                V('signature-unparsable', str(ex_))
+            # (b) results: names, and THE reported point gives the reported likelihood with fixed parameters at their given value
+            try:
+                est = {kk: float(v) for kk, v in res.get_beta_values().items()}
+                final_ll = float(res.data.logLike)
+                table = res.get_estimated_parameters(only_robust=False)
+                converged = bool(res.algorithm_has_converged())
+            except BaseException as ex_:
+                V(f'results-accessors-raise-{type(ex_).__name__}', str(ex_))
+                break
+            rec.ev()
+            if sorted(est) != free or list(table.index) != free:
+                V('results-report-wrong-set-of-parameters', f'{sorted(est)} / {list(table.index)} vs free {free} (fixed {fixed})')
+                break
+            values = dict(given)
+            values.update(est)
+            try:
+                rll = ref.loglike(ast, {'data': model['data'], 'weight': None}, values)
+            except Exception as ex_:
+                rec.c('reference_out_of_domain')
+                continue
+            rec.ev()
+            rec.c('iterfile_final_likelihood_vs_reference')
+            if not close(final_ll, rll, 1e-9, 1e-9):
+                V('reported-likelihood-not-the-one-of-the-reported-estimates-with-fixed-parameters-at-their-given-value',
+                  f'results.data.logLike={final_ll!r}; reference at {est} with fixed {dict((n, given[n]) for n in fixed)} gives {rll!r}', estimates=est)
+            # (c) estimates attached by name: reference stationarity per coordinate (starting point is NOT judged: C15)
+            if converged:
+                try:
+                    d = ref.derivatives(ast, {'data': model['data'], 'weight': None}, values, free, hessian=True)
+                    denom = max(abs(rll), 1.0)
+                    lim = max(50 * 0.0001220703125, 1e-4)
+                    Hm = -np.array([[d['hessian'][(a_, b_)] for b_ in free] for a_ in free], dtype=float)
+                    eig = np.linalg.eigvalsh(0.5 * (Hm + Hm.T))
+                    if not (eig.min() > 1e-2 and eig.max() / eig.min() < 1e5) or max(abs(v) for v in est.values()) > 4.0 or abs(rll) < 5.0:
+                        # flat direction / quasi separation (estimates beyond 4, likelihood close to 0): the relative-gradient
+                        # scale of the optimiser's stopping rule degenerates, nothing to compare with
+                        rec.c('iterfile_ill_conditioned_not_judged_for_stationarity')
+                        names_to_judge = []
+                    else:
+                        names_to_judge = free
+                        rec.ev()
+                        rec.c('iterfile_stationarity_by_name_checked')
+                    for n in names_to_judge:
+                        g = d['gradient'][n]
+                        lo, hi = _bounds_of(model, n)
+                        if lo is not None and abs(est[n] - lo) <= 1e-6 and g <= lim * denom:
+                            continue
+                        if hi is not None and abs(est[n] - hi) <= 1e-6 and g >= -lim * denom:
+                            continue
+                        if abs(g) * max(abs(est[n]), 1.0) / denom > lim:
+                            V('reported-estimate-not-stationary-for-its-own-name', f'd LL / d {n!r} = {g} at {est}', name=n)
+                            break
+                except Exception:
+                    rec.c('reference_out_of_domain')
+            for b in objs:
+                if b.status == 0 and b.name in est and float(b.initValue) != est[b.name]:
+                    V('free-beta-object-carries-estimate-of-another-parameter', f'{b.name!r}: {b.initValue} vs {est[b.name]}', name=b.name)
+                    break
+            rec.c('iterfile_op_' + str(desc.get('op')).replace(' ', '_'))
+        if len(history) >= 2:
+            rec.key(['iterfile', [s[0]['betas'] for s in specs], [s[1] for s in specs]])
+        rec.sample({'successive_specifications': [{'change': s[1], 'betas': s[0]['betas']} for s in specs]})
+    finally:
+        os.chdir(old_cwd)
+        shutil.rmtree(tmp, ignore_errors=True)
+    return rec.out()
+
+
 def run_case(case):
     mode = case['mode']
     if mode == 'history':
         return _run_history(case)
+    if mode == 'iterfile':
+        return _run_iterfile(case)
     if mode == 'model':
         return _run_model(case)
     if mode == 'dup':
@@ -2024,7 +2226,11 @@ def finalize(cov, tier):
             'history_judgements', 'history_judgements_sole_owner', 'history_first_simulate_after_later_steps',
             'history_models_numbering_shared_parameters_differently', 'history_stand_alone_evaluations',
             'history_nest_correlations', 'history_fix_betas', 'history_change_init_through_model', 'history_ids_restored_checked',
-            'history_handover_beta_leaves_checked', 'history_simulate_vs_reference', 'history_likelihood_vs_reference']
+            'history_handover_beta_leaves_checked', 'history_simulate_vs_reference', 'history_likelihood_vs_reference',
+            'iterfile_estimations_with_a_saved_file', 'iterfile_file_names_a_parameter_that_is_now_fixed',
+            'iterfile_file_names_a_parameter_the_specification_does_not_contain', 'iterfile_free_parameter_absent_from_the_file',
+            'iterfile_fixed_parameters_checked', 'iterfile_engine_calls_checked', 'iterfile_final_likelihood_vs_reference',
+            'iterfile_stationarity_by_name_checked']
     from ..gen import c03_models as gm
 
     need += ['renaming_' + k for k in gm.RENAMINGS]
